@@ -38,6 +38,13 @@ def build_model(ctx):
     if not ok or not os.path.exists(model_binary()):
         ctx.correspondence_broken("ocaml-build", log[-2000:])
         return False
+    # bin/build-ocaml may report success although the extraction failed: never run a stale model
+    newest = max(os.path.getmtime(os.path.join(common.COQ, d)) for d in EXTRACT_DEPS)
+    if os.path.getmtime(model_binary()) < newest:
+        blog = os.path.join(os.path.dirname(model_binary()), "build.log")
+        ctx.correspondence_broken("ocaml-build-stale",
+                                  (open(blog).read()[-1500:] if os.path.exists(blog) else "") + log[-500:])
+        return False
     return True
 
 
